@@ -334,6 +334,19 @@ def run_parallel(cmds, par=None, timeout=1100, env=None, ok_codes=(0,)):
         return [f.result() for f in futs]
 
 
+def by_action(g):
+    """transitions of a state graph per action (vacuity check: an action with no transition was never exercised);
+    for wrapped actions ('mutate') the inner operation is counted"""
+    c = {}
+    for outs in g.out:
+        for a, _ in outs:
+            k = a.get("op", "?")
+            if isinstance(a.get("m"), dict):
+                k += ":" + a["m"].get("op", "?")
+            c[k] = c.get(k, 0) + 1
+    return dict(sorted(c.items()))
+
+
 def read_ndjson(path):
     out = []
     with open(path) as f:
